@@ -31,7 +31,12 @@ Inductive case :=
   (* translate_dna_to_protein on a list of strings; Biopython's translation per row *)
 | CTr (rows : list (list Z)) (outs : list obs) (bio : list (list Z))
   (* genes.get_transcript_sequences on in-memory exon entries: transcripts = (exons in order, strand); output is text *)
-| CGen (ref : list Z) (txs : list transcript) (o : obs) (bio : list (list Z)).
+| CGen (ref : list Z) (txs : list transcript) (o : obs) (bio : list (list Z))
+  (* several calls on the SAME objects: x = the encoded rows (a ragged array or the sequence column of a SequenceEntry,
+     built once), r = a kept get_reverse_complement(x).  Each step is (kind, observation):
+     0 = x read again, 1 = translate(x), 2 = get_reverse_complement(x) or r read again, 3 = translate(r),
+     4 = get_reverse_complement(r).  The property: operands are unchanged, every result is the result on a fresh copy. *)
+| CSeq (rows : list (list Z)) (steps : list (Z * obs)).
 
 Definition strand_known (iv : Z * Z * Z) : bool := (iv_strand iv =? 43) || (iv_strand iv =? 45).
 (* rows compared only where the property speaks (strand '+' or '-') *)
@@ -42,6 +47,19 @@ Fixpoint rows_ok (ivs : list (Z * Z * Z)) (got want : list (list Z)) : bool :=
   | _, _, _ => false
   end.
 
+Definition seq_model (rows : list (list Z)) (k : Z) : result (list (list Z)) :=
+  if k =? 0 then Ok rows
+  else if k =? 1 then model_translate rows
+  else if k =? 2 then model_revcomp complements 0 rows
+  else if k =? 3 then match model_revcomp complements 0 rows with Ok r => model_translate r | Err c => Err c end
+  else model_revcomp2 complements 0 rows.
+Definition seq_spec (rows : list (list Z)) (k : Z) : list (list Z) :=
+  if k =? 0 then rows
+  else if k =? 1 then map spec_translate rows
+  else if k =? 2 then map spec_revcomp rows
+  else if k =? 3 then map spec_translate (map spec_revcomp rows)
+  else rows.
+
 (* Biopython (second oracle) agrees with the Spec tables on this case's input *)
 Definition bio_ok (c : case) : bool :=
   match c with
@@ -49,6 +67,7 @@ Definition bio_ok (c : case) : bool :=
   | CStr _ _ ref ivs _ bio => rows_ok ivs bio (map (spec_stranded ref) ivs)
   | CTr rows _ bio => negb (tr_wellformed rows) || zll_eqb bio (map spec_translate rows)
   | CGen ref txs _ bio => zll_eqb bio (map (spec_transcript ref) txs)
+  | CSeq _ _ => true
   end.
 (* the property itself, on what the implementation returned *)
 Definition prop_ok (c : case) : bool :=
@@ -65,6 +84,7 @@ Definition prop_ok (c : case) : bool :=
       if tr_wellformed rows then all_true (map (fun o => obs_is o (map spec_translate rows)) outs)
       else all_true (map (fun o : obs => negb (fst o =? 0)) outs)      (* N / bad length: must raise *)
   | CGen ref txs o _ => obs_is o (map (spec_transcript (map (canon 2) ref)) txs)
+  | CSeq rows steps => all_true (map (fun p : Z * obs => obs_is (snd p) (seq_spec rows (fst p))) steps)
   end.
 Definition spec_ok (c : case) : bool := bio_ok c && prop_ok c.
 
@@ -78,4 +98,5 @@ Definition model_ok (c : case) : bool :=
                  else model_stranded complements where_rows false 2 ref ivs)
   | CTr rows outs _ => all_true (map (fun o => obs_eqb o (model_translate rows)) outs)
   | CGen ref txs o _ => obs_eqb o (model_transcripts complements where_rows ref txs)
+  | CSeq rows steps => all_true (map (fun p : Z * obs => obs_eqb (snd p) (seq_model rows (fst p))) steps)
   end.
